@@ -283,6 +283,22 @@ fn drive<F: TagFrame>(src: &mut Source, obs: &mut Observer) -> Result<(), Violat
                     if c < m.pulled && was_min_alone {
                         obs.probe(P_POP_FRONT_BY_LAGGARD);
                     }
+                    if j == 0 || j + 1 == k {
+                        // exhausted = nothing pending for this output and the source has ended (C05's
+                        // "exhaustion propagates through every adaptor", observed on the bus)
+                        let want_exh = c == m.pulled && matches!(end, Some(e) if m.pulled >= e);
+                        check_eq!(
+                            obs,
+                            outs[slot].as_ref().unwrap().is_exhausted(),
+                            want_exh,
+                            "bus.exhausted",
+                            "is_exhausted() of output {} at stream position {} ({} pulled from a source of {:?} frames)",
+                            slot,
+                            c,
+                            m.pulled,
+                            end
+                        );
+                    }
                     let got = outs[slot].as_mut().unwrap().next();
                     if c == m.pulled {
                         m.pulled += 1;
